@@ -59,6 +59,7 @@ class Obs:
         self.stage_at_fault: list[str] = []
         self.reuse_probes: list[dict[str, Any]] = []
         self.lost_not_closed: list[str] = []
+        self.session_tag: dict[int, str] = {}   # connection idx -> tag of the stop callback the application passed when it opened that session
 
     def signature(self) -> str:
         parts: list[Any] = []
@@ -140,6 +141,8 @@ class Runner:
         self.program_task: asyncio.Task[Any] | None = None
         self.silenced = False
         self.last_emitted = "raw"
+        self.tags: list[tuple[int, int, str]] = []
+        self.reconnect_calls: list[Any] = []
 
     # ------------------------------------------------------------------ world
     def build(self) -> None:
@@ -222,13 +225,29 @@ class Runner:
         """The stop callback the 'application' passes: well behaved by default; spec['on_stop_mode'] == 'raises' gives a plain function that
         raises synchronously (an application bug: e.g. a callback with the wrong signature)."""
         sim = self.sim
-        if self.spec.get("on_stop_mode") == "raises":
+        # every session gets its own callback object, so that calls can be attributed to the session they were registered for; the tag is
+        # tied to the APIConnection constructed next (start_connection builds it in its first, synchronous step)
+        tag = f"client#{len(self.tags)}"
+        self.tags.append((sim.next_seq(), len(sim.conns), tag))
+        mode = self.spec.get("on_stop_mode")
+        if mode == "raises":
             def bad_on_stop(expected: bool) -> Any:
-                sim.user_on_stop.append((sim.next_seq(), sim.clock, "client", expected))
-                sim.log("on_stop", "client(raising)", expected)
+                sim.user_on_stop.append((sim.next_seq(), sim.clock, tag, expected))
+                sim.log("on_stop", tag + "(raising)", expected)
                 raise RuntimeError("application bug inside on_stop")
             return bad_on_stop
-        return sim.on_stop_cb()
+        if mode in ("reconnect", "reconnect-after-yield") and len(self.tags) <= int(self.spec.get("reconnects", 1)):
+            # the application reacts to the end of a session by opening the next one on the same client object, from inside the stop
+            # callback: either at once (before the callback's first suspension, i.e. still inside the closing connection's clean-up) or
+            # after having yielded to the loop once
+            async def reconnecting_on_stop(expected: bool) -> None:
+                sim.user_on_stop.append((sim.next_seq(), sim.clock, tag, expected))
+                sim.log("on_stop", tag + "(reconnects)", expected)
+                if mode == "reconnect-after-yield":
+                    await self.sleep(0.0)
+                self.reconnect_calls.append(sim_eager_call(sim, "connect", lambda: self.cli.connect(on_stop=self.on_stop_arg(), login=self.spec["login"])))
+            return reconnecting_on_stop
+        return sim.on_stop_cb(tag)
 
     # ------------------------------------------------------------------ user program
     async def sleep(self, dt: float) -> None:
@@ -450,10 +469,21 @@ class Runner:
         sim = self.sim
         closed_seq = view.closed_seq if view is not None else None
         a: dict[str, Any] = {"label": label, "conn": None if view is None else view.idx, "t": sim.clock, "seq": sim.next_seq()}
-        a["timers"] = sim.live_timers()
-        a["tasks"] = [t for t in sim.pending_tasks() if t != "harness:program"]
-        a["pending_calls"] = [c.name for c in sim.calls if not c.done and not c.name.startswith("probe:")]
         newer = [v for v in sim.conns if view is not None and v.idx > view.idx]
+        if newer:
+            # a later session of the same client already exists (opened from the stop callback): its connect call, timeouts and tasks are
+            # alive by right.  Charge the closed connection only with what demonstrably belongs to it: timers bound to the connection or
+            # its frame helper, and calls entered before the newer session was opened (other than the call that opened it)
+            a["shared_loop"] = True
+            a["timers"] = sim.live_timers_owned_by((view.obj, getattr(view.obj, "_frame_helper", None)))
+            a["tasks"] = []
+            a["pending_calls"] = [c.name for c in sim.calls if not c.done and not c.name.startswith("probe:") and c.seq_call is not None
+                                  and c.seq_call < newer[0].created_seq
+                                  and not (c.name in ("connect", "start") and any(c.seq_call < n.created_seq for n in newer) and c.seq_call > view.created_seq)]
+        else:
+            a["timers"] = sim.live_timers()
+            a["tasks"] = [t for t in sim.pending_tasks() if t != "harness:program"]
+            a["pending_calls"] = [c.name for c in sim.calls if not c.done and not c.name.startswith("probe:")]
         cutoff = newer[0].created_seq if newer else None
         a["open_sockets"] = [s.fd for s in sim.net.sockets if not s.closed and (cutoff is None or s.created_seq < cutoff)]
         trs = [t for t in sim.transports if view is None or t._sim_conn is view.obj]  # noqa: SLF001
@@ -519,6 +549,10 @@ class Runner:
             obs.calls = [c for c in sim.calls if not c.name.startswith("probe:")]
             obs.conns = list(sim.conns)
             obs.user_on_stop = list(sim.user_on_stop)
+            for v in sim.conns:
+                before = [t for t in self.tags if t[0] < v.created_seq]
+                if before and before[-1][1] == v.idx:
+                    obs.session_tag[v.idx] = before[-1][2]
             obs.deliveries = list(sim.deliveries)
             obs.iter_info = list(sim.iter_info)
             obs.loop_exceptions = list(sim.loop_exceptions)
